@@ -2,9 +2,11 @@
 package main
 
 import (
+	"encoding/json"
 	"flag"
 	"fmt"
 	"os"
+	"os/exec"
 	"path/filepath"
 	"sort"
 	"strconv"
@@ -27,6 +29,7 @@ func main() {
 	explain := flag.String("explain", "", "print only the obligation rule|key")
 	dump := flag.String("dump", "", "debug: dump facts (live|calls:<fn>)")
 	noEvidence := flag.Bool("no-evidence", false, "do not write evidence (selftest on scratch copies)")
+	envFlag := flag.String("env", "", "extra environment for the package loader, e.g. CGO_ENABLED=0")
 	flag.Parse()
 	t0 := time.Now()
 	if t := os.Getenv("VERIF_TIER"); t != "" && !isFlagSet("tier") {
@@ -46,7 +49,11 @@ func main() {
 			}
 		}
 	}
-	c, err := core.Load(*repo, nil, nil)
+	var loadEnv []string
+	if *envFlag != "" {
+		loadEnv = strings.Fields(*envFlag)
+	}
+	c, err := core.Load(*repo, nil, loadEnv)
 	if err != nil {
 		fmt.Printf("ERROR %v\n", err)
 		if *prop != "" && *prop != "all" {
@@ -110,9 +117,20 @@ func main() {
 			if bad > 0 {
 				exit = 1
 			}
+			nob := 0
+			for _, o := range c.Obs {
+				if o.Property == id {
+					nob++
+				}
+			}
+			fmt.Printf("SUMMARY %d obligations, %d not discharged, %d packages, %d functions\n", nob, bad, c.Stats["packages"], c.Stats["functions"])
 			continue
 		}
-		if e := core.Emit(c, rs.Meta, vdir, seed, t0, nil); e > exit {
+		var extra map[string]interface{}
+		if *tier == "thorough" {
+			extra = thoroughExtras(c, id, *repo, vdir)
+		}
+		if e := core.Emit(c, rs.Meta, vdir, seed, t0, extra); e > exit {
 			exit = e
 		}
 	}
@@ -120,6 +138,147 @@ func main() {
 		debugHook()
 	}
 	os.Exit(exit)
+}
+
+// thoroughExtras deepens a check beyond the quick tier:
+//   - the property's rules are evaluated a second time on the CGO_ENABLED=0 file set (other files
+//     are selected by build constraints: crypto/signature_nocgo.go instead of signature_cgo.go);
+//     obligations that fail there are added to the verdict under a "nocgo:" key prefix;
+//   - every confirmed seeded change under seeded/ that names this property as detecting it is applied
+//     to a scratch copy of the CURRENT /repo (outside /repo and /verif, removed immediately) and the
+//     analyser is run on it in a separate process: the change must make the property's check fail.
+//     The outcome is reported in the evidence (mutants_detected / mutants_missed / mutants_stale);
+//     it never changes the verdict on /repo itself.
+func thoroughExtras(c *core.Ctx, id, repo, vdir string) map[string]interface{} {
+	extra := map[string]interface{}{}
+	// ---- second build configuration
+	if os.Getenv("VERIF_NO_ALTCONFIG") == "" {
+		cmd := exec.Command(selfExe(), "-property", id, "-no-evidence", "-repo", repo, "-verif", vdir, "-env", "CGO_ENABLED=0")
+		cmd.Env = append(os.Environ(), "VERIF_NO_ALTCONFIG=1")
+		out, _ := cmd.CombinedOutput()
+		summary := ""
+		nbad := 0
+		for _, line := range strings.Split(string(out), "\n") {
+			switch {
+			case strings.HasPrefix(line, "SUMMARY "):
+				summary = strings.TrimPrefix(line, "SUMMARY ")
+			case strings.HasPrefix(line, "ERROR "):
+				summary = "could not be loaded (not part of the verdict): " + strings.TrimPrefix(line, "ERROR ")
+			case strings.HasPrefix(line, "FAIL "+id+" "):
+				// FAIL <id> <rule>|<key> at <pos>: <detail>
+				rest := strings.TrimPrefix(line, "FAIL "+id+" ")
+				rk, tail, _ := strings.Cut(rest, " at ")
+				rule, key, _ := strings.Cut(rk, "|")
+				pos, detail, _ := strings.Cut(tail, ": ")
+				nbad++
+				c.Obs = append(c.Obs, core.Ob{Property: id, Rule: rule, Key: "nocgo:" + key, Pos: pos, Status: core.Violated, Detail: "[CGO_ENABLED=0 file set] " + detail})
+			}
+		}
+		if summary == "" {
+			summary = "no result (the sub-process printed nothing recognisable)"
+		}
+		extra["nocgo_configuration"] = "rules re-evaluated on the CGO_ENABLED=0 file set: " + summary
+	}
+	// ---- seeded changes
+	entries, _ := os.ReadDir(filepath.Join(vdir, "seeded"))
+	var results []map[string]interface{}
+	detected, missed, stale := 0, 0, 0
+	self := selfExe()
+	for _, e := range entries {
+		if !e.IsDir() {
+			continue
+		}
+		dir := filepath.Join(vdir, "seeded", e.Name())
+		meta := readJSON(filepath.Join(dir, "meta.json"))
+		if meta == nil {
+			continue
+		}
+		want := false
+		var expect []string
+		if db, ok := meta["detected_by"].([]interface{}); ok {
+			for _, x := range db {
+				if r, ok := x.(string); ok && strings.HasPrefix(r, id+".") {
+					want = true
+					expect = append(expect, r)
+				}
+			}
+		}
+		if !want {
+			continue
+		}
+		res := map[string]interface{}{"seed": e.Name(), "expected_rules": expect}
+		scratch, err := os.MkdirTemp("/var/tmp", "mvseed-")
+		if err != nil {
+			res["outcome"] = "skipped: " + err.Error()
+			results = append(results, res)
+			continue
+		}
+		func() {
+			defer os.RemoveAll(scratch)
+			if out, err := exec.Command("cp", "-a", repo+"/.", scratch).CombinedOutput(); err != nil {
+				res["outcome"] = "skipped: copy failed: " + string(out)
+				return
+			}
+			if out, err := exec.Command("git", "-C", scratch, "apply", filepath.Join(dir, "patch.diff")).CombinedOutput(); err != nil {
+				stale++
+				res["outcome"] = "stale: the seeded patch no longer applies to the current tree: " + strings.TrimSpace(string(out))
+				return
+			}
+			cmd := exec.Command(self, "-property", id, "-no-evidence", "-repo", scratch, "-verif", vdir)
+			cmd.Env = append(os.Environ(), "VERIF_NO_ALTCONFIG=1")
+			out, _ := cmd.CombinedOutput()
+			var hits []string
+			for _, line := range strings.Split(string(out), "\n") {
+				if !strings.HasPrefix(line, "FAIL ") {
+					continue
+				}
+				for _, r := range expect {
+					if strings.Contains(line, " "+r+"|") {
+						if len(line) > 240 {
+							line = line[:240]
+						}
+						hits = append(hits, line)
+					}
+				}
+			}
+			if len(hits) > 0 {
+				detected++
+				res["outcome"] = "detected"
+				res["report"] = hits[0]
+			} else {
+				missed++
+				res["outcome"] = "MISSED: the seeded change no longer makes the expected rule fail"
+			}
+		}()
+		results = append(results, res)
+	}
+	extra["mutants"] = results
+	extra["mutants_detected"] = detected
+	extra["mutants_missed"] = missed
+	extra["mutants_stale"] = stale
+	if missed > 0 {
+		fmt.Printf("note: %d seeded change(s) recorded as detected by %s are no longer detected (checker regression; see evidence)\n", missed, id)
+	}
+	return extra
+}
+
+func selfExe() string {
+	if e, err := os.Executable(); err == nil {
+		return e
+	}
+	return os.Args[0]
+}
+
+func readJSON(path string) map[string]interface{} {
+	b, err := os.ReadFile(path)
+	if err != nil {
+		return nil
+	}
+	var m map[string]interface{}
+	if json.Unmarshal(b, &m) != nil {
+		return nil
+	}
+	return m
 }
 
 func isFlagSet(name string) bool {
